@@ -78,6 +78,10 @@ PROPS = {
     "C11": dict(module="ZkElGamal.Props.C11", ns="Zk.Props.C11", trusted=[DALEK], assumptions=[DALEK]),
     "C12": dict(module="ZkElGamal.Props.C12", ns="Zk.Props.C12", trusted=[DALEK],
                 assumptions=[DALEK, "base64 / serde_json / bincode are external: modelled (standard alphabet, canonical padding and trailing bits; JSON array of u8) and compared differentially; serde forms beyond the JSON key files are not covered (PARTIAL)"]),
+    "C13": dict(module="ZkElGamal.Props.C13", ns="Zk.Props.C13",
+                trusted=["aes / polyval / aes-gcm-siv crates are modelled: the block cipher and POLYVAL are parameters of the theorems; the concrete Lean AES-128/POLYVAL instance is validated by interoperating with the crate in both directions"],
+                assumptions=["'decrypting under any other key or after changing any bit returns nothing' is not a mathematical fact for a fixed key: the theorem gives the exact necessary condition (a 128-bit tag collision); the run flips all 288 bits and tries other keys",
+                             "rand::OsRng nonce generation is external (C19)"]),
     "C15": dict(module="ZkElGamal.Props.C15", ns="Zk.Props.C15", extra=[consts_check], exhaustive=True,
                 assumptions=["solana_instruction::Instruction / AccountMeta and bytemuck::bytes_of are external (modelled)"]),
     "C16": dict(module="ZkElGamal.Props.C16", ns="Zk.Props.C16", extra=[consts_check], exhaustive=True,
@@ -163,6 +167,11 @@ MANIFEST_TEXT = {
              "Correspondence: all lengths 0..2N, special values and z+k*l in every field, Pod<->typed agreement, grouped ciphertexts with 0..3 handles, extraction = to_elgamal_ciphertext, base64 padding/alphabet/trailing-bit/whitespace variants, JSON key-file variants, writers. "
              "PARTIAL: base64 and serde_json are modelled, not proved canonical; bincode/serde derive forms and the private proof structs' from_bytes are only exercised through verify_proof.",
         note="Trusted: Lean kernel; dalek codec laws assumed; base64/serde_json external."),
+    "C13": dict(
+        technique="Lean 4 proof (round trip for all keys/nonces/u64 amounts, layout, exact tamper-acceptance condition; generic in the block cipher) + differential interop with an independent AES-128-GCM-SIV written in Lean",
+        text="Theorems: decryptAmount(encryptAmount key nonce x) = x for every key, 12-byte nonce and x < 2^64 (CTR involution + SIV tag recomputation); ciphertext = nonce(12) || 8 || tag(16); a successful decryption of any 36 bytes implies the last 16 bytes equal the SIV tag of the recovered plaintext (so tampering / another key succeeds only on a 128-bit collision). "
+             "Correspondence: SDK-encrypted -> model-decrypted and model-encrypted -> SDK-decrypted on boundary/random keys and amounts (conformance to RFC 8452 of both), all 288 single-bit flips of sampled ciphertexts, flipped and random other keys, wrong lengths: both sides must return nothing.",
+        note="Trusted: Lean kernel; AES/POLYVAL external (parameters in the theorems). Collision-freeness is not claimed."),
     "C15": dict(
         technique="Lean 4 proof (encode/decode laws for all inputs; `decide +kernel` over the enum/struct tables regenerated from source) + differential correspondence with the SDK encoders/decoders",
         text="Theorems: the ProofInstruction enum regenerated from instruction.rs equals the documented v1 table (0..12); layout, account order/flags, "
